@@ -3,6 +3,7 @@ package work
 import (
 	"bytes"
 	"fmt"
+	"strings"
 
 	"github.com/oasisprotocol/curve25519-voi/primitives/merlin"
 
@@ -46,6 +47,21 @@ func init() {
 		Init: func(e *Env) error { return model.SelfTestMerlin() },
 		Run:  runC13C,
 	})
+	// Cold start: one process per run, and no transcript exists before the tasks run - each task creates its
+	// own with NewTranscript and replays the origin's history itself.  Whatever the package builds on first
+	// use (a memoised initial state, a table) is then first used by concurrently scheduled tasks.
+	Register(&Workload{
+		Name:     "C13D",
+		Property: "C13",
+		Phase:    "cold start: the first transcripts of the process are created by concurrent tasks",
+		Variants: []string{"instrs"},
+		Rule: "one OS process per run; the scenario of phase C, except that no transcript is created before the tasks are spawned: each of the 2..4 tasks calls NewTranscript itself, replays the tape-drawn origin history on it and continues with its own 1..5 operations; every context switch is a tape draw at a statement-level yield inside primitives/merlin or internal/strobe (including strobe.New); oracle: each task's outputs equal the Merlin model of its history; " +
+			"non-trivial = at least one switch while the leaving task was inside a transcript operation; distinct = distinct event-log digests",
+		Real: []string{"primitives/merlin, internal/strobe (statement yields spliced into merlin.go and strobe.go; Keccak-f atomic)"},
+		Stub: []string{"goroutine scheduler (rt)", "entropy: fixed 32-byte strings"},
+		Init: func(e *Env) error { return model.SelfTestMerlin() },
+		Run:  runC13C,
+	})
 	// The same scenario as a differential instrument for C06: each task's outputs are a
 	// function of its own history only, so they must be identical on every backend whatever
 	// the schedule.  In this registration nothing schedule-dependent is logged (tasks do not
@@ -68,16 +84,30 @@ func init() {
 func runC13C(e *Env, r *core.Run) {
 	t := r.T
 	g := &Gen{T: t}
-	quiet := r.Property == "C06" // differential registration: log nothing schedule-dependent
+	quiet := r.Property == "C06"                                          // differential registration: log nothing schedule-dependent
+	cold := r.Phase == "C13D" || strings.HasPrefix(r.Phase, "cold start") // no library call before the tasks run
 	app := string(g.Bytes(t.W(12)))
-	origin := merlin.NewTranscript(app)
+	var origin, origin0 *merlin.Transcript
+	if !cold {
+		origin = merlin.NewTranscript(app)
+	}
 	mOrigin := model.MNew(app)
+	type histEnt struct {
+		l string
+		m []byte
+	}
+	var hist []histEnt
 	for i := 0; i < t.W(4); i++ {
 		l, m := string(g.Bytes(1+t.W(8))), g.Bytes(t.W(200))
-		origin.AppendMessage(l, m)
+		hist = append(hist, histEnt{l, m})
+		if !cold {
+			origin.AppendMessage(l, m)
+		}
 		mOrigin.Append(l, m)
 	}
-	origin0 := origin.Clone() // pristine copy for the sequential re-execution (C06 registration)
+	if !cold {
+		origin0 = origin.Clone() // pristine copy for the sequential re-execution (C06 registration)
+	}
 	ntasks := 2 + t.W(3)
 	scripts := make([][]c13cOp, ntasks)
 	total := 0
@@ -119,7 +149,15 @@ func runC13C(e *Env, r *core.Run) {
 		sim.Spawn(func(task int) {
 			l := logs[i]
 			rt.EnterOp()
-			mine := origin.Clone() // every task clones the one shared origin
+			var mine *merlin.Transcript
+			if cold {
+				mine = merlin.NewTranscript(app) // among the first transcripts of the process
+				for _, h := range hist {
+					mine.AppendMessage(h.l, h.m)
+				}
+			} else {
+				mine = origin.Clone() // every task clones the one shared origin
+			}
 			rt.ExitOp()
 			for j, op := range scripts[i] {
 				rt.Yield(3905)
@@ -204,11 +242,18 @@ func runC13C(e *Env, r *core.Run) {
 			if want != nil {
 				r.CountN(c13cBytes, int64(len(want)))
 				if !bytes.Equal(outs[i][j], want) {
-					r.Fail("model-divergence", "concurrent-clone", "task %d operation %d (kind %d) on its own clone of the shared origin produced %s; the Merlin model of its history gives %s", i, j, op.kind, core.Hex8(outs[i][j]), core.Hex8(want))
+					what := "on its own clone of the shared origin"
+					if cold {
+						what = "on the transcript it created itself, among the first of the process,"
+					}
+					r.Fail("model-divergence", "concurrent-clone", "task %d operation %d (kind %d) %s produced %s; the Merlin model of its history gives %s", i, j, op.kind, what, core.Hex8(outs[i][j]), core.Hex8(want))
 					return
 				}
 			}
 		}
+	}
+	if cold {
+		return // there is no shared origin in the cold-start phase
 	}
 	a := make([]byte, 32)
 	origin.ExtractBytes(a, "origin-final")
